@@ -104,6 +104,13 @@ impl Engine for Msim {
                 strategy: gen::sweep_case(&ctx.prop, thorough),
             });
         }
+        if matches!(ctx.prop.as_str(), "C01" | "C02" | "C03" | "C06" | "C07" | "C09" | "C11") {
+            stages.push(Stage {
+                name: "sweep2".into(),
+                cases: if thorough { 16 * 60 } else { 16 * 2 },
+                strategy: gen::sweep2_case(&ctx.prop, thorough),
+            });
+        }
         if matches!(ctx.prop.as_str(), "C01" | "C02" | "C08" | "C09" | "C11") {
             stages.push(Stage {
                 name: "contention".into(),
